@@ -2,7 +2,7 @@
 From Coq Require Import ZArith List Bool Lia.
 From J2O Require Import PyLib.
 Import ListNotations.
-Open Scope Z_scope.
+Local Open Scope Z_scope.
 
 Inductive dtype :=
  | DT_UNDEFINED | DT_FLOAT | DT_UINT8 | DT_INT8 | DT_UINT16 | DT_INT16 | DT_INT32 | DT_INT64
